@@ -323,11 +323,12 @@ def main(chk):
         'the number of requests executed on the servers for it and its transaction total by the number of transactions completed (a Sync the '
         'pooler answers itself may or may not be counted). (O1) PoolStats::construct_pool_lookup over registries with symbolic states. '
         '(O3) a CancelRequest connection -- the real Client::cancel, handle in cancel mode, the drop -- makes no statistics call on the entry of the process id it names. '
-        'NOT decided: consistency of the global registries under concurrent tasks, server-connection registration in bb8 connect/drop, '
+        '(O4) bb8\'s connect hook, ServerPool::connect from MIR with Server::startup succeeding or failing: the connection is registered once and handed to bb8 in state idle; '
+        'a failed connect leaves nothing registered. NOT decided: consistency of the global registries under concurrent tasks, Server::drop\'s disconnect, '
         'bytes/error totals, and that totals never decrease across pool reloads.')
     chk.assumptions += [
         'one session at a time; the registries themselves (RwLock<HashMap>) and their concurrent readers are not encoded',
-        'server-side registration (ServerStats::register in Server::startup, disconnect in Server::drop) is outside the handle harness (servers are pre-connected)',
+        'in the handle harness servers are pre-connected; their registration is decided by O4 (connect hook) only; disconnect in Server::drop is not decided',
     ]
     prog = chk.program('on')
     tasks = [(prog, (0, 1, 2), (0, 1)), (prog, (0, 0, 1), (1, 2)), (prog, (0, 0, 0), (0, 0))]
